@@ -13,6 +13,8 @@ class C10(timed.TimedHarness):
     name = "c10"
 
     def check(self, p, ex):
+        if ex.verdict == "time-horizon":
+            return []       # the harness's own scripted sleep slipped past the time horizon under clock deviations: nothing observed
         if ex.verdict != "done":
             return [("C10/%s" % ex.verdict, "execution ended with %s: %r" % (ex.verdict, ex.obs))]
         o = ex.obs
